@@ -196,6 +196,13 @@ func (c *Ctx) checkForwarderSSA(rule string, sp fwdSpec) fwdResultSSA {
 		return fail(fn.Pos(), fmt.Sprintf("expected exactly one loop that visits every index of the children list (%s) once, in order; found %d: some children are skipped, visited twice or visited out of order", wantList, n))
 	}
 	lp := fl.loop
+	// the loop is reached on every path: no return before (or around) it - an early return means that
+	// for some arguments or some history no child is called at all
+	for _, r := range returnsOf(fn) {
+		if !lp.Header.Dominates(r.Block()) {
+			return fail(r.Pos(), "the method can return without entering the per-child loop: for some arguments, or depending on earlier calls, no child receives the call", c.describe(r))
+		}
+	}
 	// every forwarded call is inside the loop, on the loop element, with the method's own parameters
 	for _, ci := range calls {
 		in := ci.(ssa.Instruction)
